@@ -16,6 +16,14 @@ for t in $(grep MISSING /tmp/fix/baseline-last.log | awk '{print $2}'); do
   for k in 1 2 3; do
     if /venv/bin/python -m pytest -q -p no:cacheprovider "$mod::${cls##*.}::$name" > /tmp/fix/rerun.log 2>&1; then ok=1; break; fi
   done
-  [ $ok = 1 ] || { echo "TEST FAILS WITH PATCH: $t"; tail -5 /tmp/fix/rerun.log; git checkout -- .; exit 6; }
+  if [ $ok = 0 ]; then
+    # does it also fail on the unpatched HEAD right now (machine load)?  then it says nothing about the patch
+    [ -d /tmp/fix/wt-clean ] || git -C /repo worktree add -q --detach /tmp/fix/wt-clean HEAD
+    git -C /tmp/fix/wt-clean checkout -q -- . ; git -C /tmp/fix/wt-clean checkout -q --detach $(git -C /repo rev-parse HEAD)
+    cleanfail=0
+    for k in 1 2; do (cd /tmp/fix/wt-clean && /venv/bin/python -m pytest -q -p no:cacheprovider "$mod::${cls##*.}::$name" > /tmp/fix/rerun-clean.log 2>&1) || cleanfail=$((cleanfail+1)); done
+    if [ $cleanfail = 2 ]; then echo "note: $t fails on the unpatched tree too (load-flaky), ignored"; else
+      echo "TEST FAILS WITH PATCH: $t"; tail -5 /tmp/fix/rerun.log; git checkout -- .; exit 6; fi
+  fi
 done
 git commit -q -a -F "$D/message.txt" && echo "COMMITTED $(git rev-parse --short HEAD) $(head -1 $D/message.txt)"
